@@ -274,6 +274,7 @@ Definition drop_subs (c : Z) (ts : list Z) (sb : list (Z * list Z)) : list (Z * 
 Definition remove_module_with (rec : hdr -> payload -> M unit) (c : Z) : M unit :=
   s <- get ;;
   let m := find_mod c (mods s) in
+  if negb (m_reg m) then ret tt else      (* self.modules.get(conn) is not module: already removed *)
   modify (fun s => with_subs s (drop_subs c (m_subs m) (subs s))) ;;;
   modify (fun s => with_loggers s (zremove c (loggers s))) ;;;
   set_mod c mm_close ;;;
@@ -291,14 +292,14 @@ Definition send_checked_with (rec : hdr -> payload -> M unit) (c : Z) (hh : hdr)
   r <- mod_send c hh p ;;
   match fst r with
   | SOk => set_mod c (fun m => mm_drops m 0) ;;; ret (snd r)
-  | SConnErr => on_conn_err_with rec c (snd r) ;;; ret (snd r)
-  | SOSErr => crash XOSError
+  | SConnErr | SOSErr => on_conn_err_with rec c (snd r) ;;; ret (snd r)   (* except OSError *)
   end.
 
 (* one recipient of the snapshot; returns the header as last stamped *)
 Definition deliver_with (rec : hdr -> payload -> M unit) (p : payload) (hh : hdr) (c : Z) : M hdr :=
   s <- get ;;
   let m := find_mod c (mods s) in
+  if negb (m_reg m) then ret hh else      (* removed while delivering to an earlier subscriber *)
   if zmem c (wl s) then
     if dest_filter (h_dst_mod hh) (m_mod_id m) (m_logger m) then send_checked_with rec c hh p
     else ret hh
@@ -348,20 +349,20 @@ Definition send_client_info (c : Z) : M unit :=
   s <- get ;;
   send_mgr MT_CLIENT_INFO SZ_CLIENT_INFO (client_payload false (find_mod c (mods s))).
 
-(* send_to_loggers: iteration over the live set; a size change is detected at the next step *)
-Fixpoint loggers_loop (n0 : nat) (hh : hdr) (p : payload) (l : list Z) : M unit :=
-  s <- get ;;
-  if negb (Nat.eqb (length (loggers s)) n0) then crash XSetSize
-  else match l with
-       | [] => ret tt
-       | c :: r =>
-         let m := find_mod c (mods s) in
-         if negb (zmem c (wl s)) && m_closed m then crash XValueError
-         else hh' <- send_checked c hh p ;; loggers_loop n0 hh' p r
-       end.
+(* send_to_loggers: iterates over a copy of the set, skipping modules removed meanwhile *)
+Fixpoint loggers_loop (hh : hdr) (p : payload) (l : list Z) : M unit :=
+  match l with
+  | [] => ret tt
+  | c :: r =>
+    s <- get ;;
+    let m := find_mod c (mods s) in
+    if negb (m_reg m) then loggers_loop hh p r
+    else if negb (zmem c (wl s)) && m_closed m then crash XValueError
+    else hh' <- send_checked c hh p ;; loggers_loop hh' p r
+  end.
 
 Definition send_to_loggers (hh : hdr) (p : payload) : M unit :=
-  s <- get ;; loggers_loop (length (loggers s)) hh p (loggers s).
+  s <- get ;; loggers_loop hh p (loggers s).
 
 Definition send_ack (c : Z) : M unit :=
   s <- get ;;
@@ -380,14 +381,14 @@ Fixpoint assign_loop (n : nat) (off : Z) (used : list Z) : option Z * Z :=
     if zmem mid used then assign_loop k off2 used else (Some mid, off2)
   end.
 
-Definition assign_module_id : M Z :=
+Definition assign_module_id : M (option Z) :=
   s <- get ;;
   let used := map m_mod_id (registered s) in
   let '(r, off) := assign_loop (Z.to_nat MAX_DYN_IDS) (dyn_off s) used in
   modify (fun s => with_dyn s off) ;;;
   match r with
-  | Some mid => ret mid
-  | None => mlog 40 ;;; crash XDynIds
+  | Some mid => ret (Some mid)
+  | None => mlog 40 ;;; ret None          (* RuntimeError, caught in connect_module *)
   end.
 
 (* what the wire delivered, decoded the way the manager decodes it *)
@@ -401,21 +402,18 @@ Inductive inpayload :=
 | InNone.
 
 (* the loop over self.modules.values() in connect_module; true = refused *)
-Fixpoint connect_scan (n0 : nat) (c : Z) (me : module) (others : list module) : M bool :=
-  s <- get ;;
-  if negb (Nat.eqb (length (registered s)) n0) then crash XDictSize
-  else
+Fixpoint connect_scan (c : Z) (me : module) (others : list module) : M bool :=
   match others with
   | [] => ret false
   | m :: r =>
-    if m_conn m =? c then connect_scan n0 c me r
+    if m_conn m =? c then connect_scan c me r
     else if (m_mod_id m =? m_mod_id me) && (m_unique m || m_unique me) then
       mlog 40 ;;; remove_module c ;;; ret true
     else if negb (m_name me =? 0) then
       if (m_unique m || m_unique me) && (m_name m =? m_name me) then
         mlog 40 ;;; remove_module c ;;; ret true
-      else mlog 10 ;;; connect_scan n0 c me r
-    else connect_scan n0 c me r
+      else mlog 10 ;;; connect_scan c me r
+    else connect_scan c me r
   end.
 
 Definition connect_module (c : Z) (h : hdr) (ip : inpayload) : M bool :=
@@ -423,24 +421,33 @@ Definition connect_module (c : Z) (h : hdr) (ip : inpayload) : M bool :=
   let m := find_mod c (mods s) in
   if m_connected m then ret false
   else
-    (match ip with
-     | InConnectV2 lg dm am mid pid name ascii =>
-       (* mod_id, unique, pid are stored before the name is decoded *)
-       set_mod c (fun m => mm_ident m mid pid (m_name m) (am =? 0)) ;;;
-       (if ascii then set_mod c (fun m => mm_name m name) else crash XUnicode) ;;;
-       set_mod c (fun m => mm_flags m (lg =? 1) (dm =? 1))
-     | InConnect lg dm =>
-       set_mod c (fun m => mm_modid m (h_src_mod h)) ;;;
-       set_mod c (fun m => mm_flags m (lg =? 1) (dm =? 1))
-     | _ => ret tt
-     end) ;;;
+    bad_name <-
+      (match ip with
+       | InConnectV2 lg dm am mid pid name ascii =>
+         (* mod_id, unique, pid are stored before the name is decoded *)
+         set_mod c (fun m => mm_ident m mid pid (m_name m) (am =? 0)) ;;;
+         if ascii then
+           set_mod c (fun m => mm_name m name) ;;;
+           set_mod c (fun m => mm_flags m (lg =? 1) (dm =? 1)) ;;; ret false
+         else mlog 40 ;;; remove_module c ;;; ret true      (* UnicodeDecodeError: refused *)
+       | InConnect lg dm =>
+         set_mod c (fun m => mm_modid m (h_src_mod h)) ;;;
+         set_mod c (fun m => mm_flags m (lg =? 1) (dm =? 1)) ;;; ret false
+       | _ => ret false
+       end) ;;
+    if bad_name then ret false else
     s1 <- get ;;
     let me := find_mod c (mods s1) in
     refused <-
       (if negb (m_mod_id me =? 0) then
          if bad_user_id (m_mod_id me) then mlog 40 ;;; remove_module c ;;; ret true
-         else connect_scan (length (registered s1)) c me (registered s1)
-       else mid <- assign_module_id ;; set_mod c (fun m => mm_modid m mid) ;;; ret false) ;;
+         else connect_scan c me (registered s1)
+       else
+         r <- assign_module_id ;;
+         match r with
+         | Some mid => set_mod c (fun m => mm_modid m mid) ;;; ret false
+         | None => remove_module c ;;; ret true
+         end) ;;
     if refused then ret false
     else
       set_mod c mm_connected ;;;
@@ -452,8 +459,8 @@ Definition add_subscription (c t : Z) : M unit :=
   s <- get ;;
   let m := find_mod c (mods s) in
   if t =? ALL_MESSAGE_TYPES then
+    modify (fun s => with_subs s (drop_subs c (m_subs m) (subs s))) ;;;
     modify (fun s => with_subs s (aupdate t (zinsert c) (subs s))) ;;;
-    modify (fun s => with_subs s (fold_left (fun acc st => aupdate st (zremove c) acc) (m_subs m) (subs s))) ;;;
     set_mod c (fun m => mm_subs m [t]) ;;;
     mlog 10
   else if zmem ALL_MESSAGE_TYPES (m_subs m) then ret tt
@@ -467,7 +474,7 @@ Definition remove_subscription (c t : Z) : M unit :=
   let m := find_mod c (mods s) in
   if t =? ALL_MESSAGE_TYPES then
     modify (fun s => with_subs s (aupdate t (zremove c) (subs s))) ;;;
-    modify (fun s => with_subs s (fold_left (fun acc st => aupdate st (zremove c) acc) (m_subs m) (subs s))) ;;;
+    modify (fun s => with_subs s (drop_subs c (m_subs m) (subs s))) ;;;
     set_mod c (fun m => mm_subs m []) ;;;
     mlog 10
   else if zmem ALL_MESSAGE_TYPES (m_subs m) then ret tt
@@ -488,9 +495,9 @@ Definition process_message (c : Z) (h : hdr) (ip : inpayload) : M unit :=
     (match ip with InSub mt => remove_subscription c mt | _ => ret tt end) ;;; send_ack c
   else if t =? MT_CLIENT_SET_NAME then
     (match ip with
-     | InName n ascii => if ascii then set_mod c (fun m => mm_name m n) else crash XUnicode
-     | _ => ret tt end) ;;;
-    mlog 20 ;;; send_client_info c
+     | InName n ascii => if ascii then set_mod c (fun m => mm_name m n) ;;; mlog 20 else mlog 30
+     | _ => mlog 20 end) ;;;
+    send_client_info c
   else if t =? MT_MODULE_READY then
     (match ip with InReady pid => set_mod c (fun m => mm_pid m pid) | _ => ret tt end) ;;;
     send_client_info c
@@ -506,7 +513,7 @@ Inductive inbound :=
 | IReset                 (* ConnectionError while reading the header *)
 | IResetData (h : hdr).  (* ... while reading the payload *)
 
-Definition bad_size (n : Z) : bool := (n <? 0) || (DATA_BUFFER_SIZE <? n).
+Definition bad_size (n : Z) : bool := bad_size_guard n DATA_BUFFER_SIZE.
 
 Definition service (c : Z) (ib : inbound) : M unit :=
   s <- get ;;
@@ -514,13 +521,14 @@ Definition service (c : Z) (ib : inbound) : M unit :=
   else match ib with
        | IEof => remove_module c ;;; mlog 30
        | IReset => remove_module c ;;; mlog 40
-       | IEofData h => if bad_size (h_nbytes h) then crash XValueError
+       | IEofData h => if bad_size (h_nbytes h) then remove_module c ;;; mlog 30
                        else if h_nbytes h =? 0 then process_message c h InNone
                        else remove_module c ;;; mlog 30
-       | IResetData h => if bad_size (h_nbytes h) then crash XValueError
+       | IResetData h => if bad_size (h_nbytes h) then remove_module c ;;; mlog 30
                          else if h_nbytes h =? 0 then process_message c h InNone
                          else remove_module c ;;; mlog 40
-       | IFrame h ip => if bad_size (h_nbytes h) then crash XValueError else process_message c h ip
+       | IFrame h ip => if bad_size (h_nbytes h) then remove_module c ;;; mlog 30
+                        else process_message c h ip
        end.
 
 (* ---- periodic senders ---- *)
@@ -535,10 +543,12 @@ Fixpoint timing_writes (l : list (Z * Z)) : option (list (Z * Z)) :=
   match l with
   | [] => Some []
   | (mt, cnt) :: r =>
-    match norm_index LEN_timing mt, timing_writes r with
-    | Some j, Some w => Some ((j, wrap16 cnt) :: w)
-    | _, _ => None
-    end
+    if timing_slot_ok mt then
+      match norm_index LEN_timing mt, timing_writes r with
+      | Some j, Some w => Some ((j, wrap16 cnt) :: w)
+      | _, _ => None
+      end
+    else timing_writes r
   end.
 
 Fixpoint pid_writes (l : list module) : option (list (Z * Z)) :=
@@ -592,7 +602,7 @@ Fixpoint traffic_loop (items : list (Z * Z)) (n sub dsub nsent i : Z) (ty ct : l
     let ty' := list_set ty (Z.to_nat i') mt in
     let ct' := list_set ct (Z.to_nat i') (wrap16 cnt) in
     if traffic_send_now n then
-      let '(l, fin) := traffic_loop r (n + 1) (sub + 1) sub n i' ty' ct' in
+      let '(l, fin) := traffic_loop r (n + 1) (sub + 1) sub (traffic_nsent n) i' ty' ct' in
       ((sub, ty', ct') :: l, fin)
     else traffic_loop r (n + 1) sub sub nsent i' ty' ct'
   end.
@@ -619,23 +629,22 @@ Definition send_traffic (now : Z) : M unit :=
   modify (fun s => with_counts s (counts s) []) ;;;
   modify (fun s => with_times s (traffic_seq s + 1) (t_timing s) now (t_info s)).
 
-Fixpoint active_loop (n0 : nat) (i : Z) (l : list module) (acc : list (Z * Z)) : M (list (Z * Z)) :=
-  s <- get ;;
-  if negb (Nat.eqb (length (registered s)) n0) then crash XDictSize
-  else match l with
-       | [] => ret acc
-       | m :: r =>
-         if LEN_client_mod_id <=? i then crash XIndexError
-         else
-           let cur := find_mod (m_conn m) (mods s) in
-           send_client_info (m_conn m) ;;;
-           active_loop n0 (i + 1) r (acc ++ [(m_mod_id cur, m_pid cur)])
-       end.
+Fixpoint active_loop (i : Z) (l : list Z) (acc : list (Z * Z)) : M (list (Z * Z)) :=
+  match l with
+  | [] => ret acc
+  | c :: r =>
+    s <- get ;;
+    let cur := find_mod c (mods s) in
+    let acc' := if active_slot_ok i then acc ++ [(m_mod_id cur, m_pid cur)] else acc in
+    (if active_slot_ok i && negb (i <? LEN_client_mod_id) then crash XIndexError else ret tt) ;;;
+    send_client_info c ;;;
+    active_loop (i + 1) r acc'
+  end.
 
 Definition send_active_clients (now : Z) : M unit :=
   mlog 10 ;;;
   s <- get ;;
-  entries <- active_loop (length (registered s)) 0 (registered s) [] ;;
+  entries <- active_loop 0 (map m_conn (registered s)) [] ;;
   s1 <- get ;;
   send_mgr MT_ACTIVE_CLIENTS SZ_ACTIVE_CLIENTS (PActive (Z.of_nat (length (registered s1)) - 1) entries) ;;;
   modify (fun s => with_times s (traffic_seq s) (t_timing s) (t_traffic s) now).
